@@ -243,7 +243,7 @@ static void caseC16(uint64_t, vh::Rng& g)
 	// ---- partition + reflexive, transitive relation on the blocks
 	{
 		ExplicitLTS lts(n); for (auto& e : E) lts.addTransition(std::get<0>(e), std::get<1>(e), std::get<2>(e)); lts.init();
-		int B = g.range(1, std::min(n, 4)); std::vector<int> blk(n); std::vector<std::vector<size_t>> part(B);
+		int B = g.range(1, std::min(n, n > 9 ? 8 : 4)); std::vector<int> blk(n); std::vector<std::vector<size_t>> part(B);
 		for (int q = 0; q < n; ++q) { blk[q] = q < B ? q : static_cast<int>(g.below(B)); }
 		if (g.chance(1, 2)) std::shuffle(blk.begin(), blk.end(), g);
 		for (int q = 0; q < n; ++q) part[blk[q]].push_back(q);
